@@ -3,7 +3,7 @@ import ast
 
 from sa import astq
 from sa.astq import norm_text
-from sa.idioms import guarded, reach_under, attr_truth
+from sa.idioms import guarded, reach_under, attr_truth, combine
 from sa.project import dotted, walk_local, AnalysisError
 
 EXPLANATION = (    "Shape of Arbiter.reload_from_config decided on its CFG and def-use chains: "
@@ -67,7 +67,7 @@ def r1(run, ctx):
               'only DictDiffer.%s() is consulted: adding an option that has no default '
               '(max_age, stdin_socket, virtualenv, ...) or deleting one is not noticed by '
               'reloadconfig' % '/'.join(sorted(used)),
-              construct='DictDiffer uses only %s' % '/'.join(sorted(used)))
+              construct='DictDiffer consults only %s' % '/'.join(sorted(used)).upper())
     dd = ctx.p.cls('circus.util:DictDiffer')
     ch = dd.methods['changed']
     run.check('R1', 'self.intersect' in norm_text(ch.node) and '!=' in norm_text(ch.node),
@@ -183,9 +183,29 @@ def r3(run, ctx):
         if nm not in src:
             raise AnalysisError('C12 R3: %s not found' % nm)
 
-    def changed_true(e):
-        if isinstance(e, ast.Name) and e.id == 'changed':
+    def diff_nonempty(e):
+        """truth of e when the per-watcher diff is non-empty"""
+        if isinstance(e, ast.Compare) and len(e.ops) == 1 and isinstance(e.left, ast.Call) and \
+                dotted(e.left.func) == 'len' and norm_text(e.left.args[0]) == 'diff':
+            k = astq.const_value(e.comparators[0], None)
+            op = type(e.ops[0])
+            if (op, k) in ((ast.Gt, 0), (ast.GtE, 1), (ast.NotEq, 0)):
+                return True
+            if (op, k) in ((ast.Eq, 0), (ast.LtE, 0), (ast.Lt, 1)):
+                return False
+        if isinstance(e, ast.Name) and e.id == 'diff':
             return True
+        if isinstance(e, ast.Compare) and len(e.ops) == 1 and norm_text(e.left) == 'diff' and \
+                norm_text(e.comparators[0]) == 'set()':
+            return isinstance(e.ops[0], ast.NotEq)
+        return None
+
+    def np_only(e):
+        if isinstance(e, ast.Compare) and isinstance(e.left, ast.Name) and e.left.id == 'diff' \
+                and len(e.ops) == 1 and isinstance(e.ops[0], (ast.Eq, ast.NotEq)) and \
+                isinstance(e.comparators[0], ast.Set) and \
+                [astq.const_value(x) for x in e.comparators[0].elts] == ['numprocesses']:
+            return isinstance(e.ops[0], ast.Eq)
         return None
     adds = []
     for n in ctx.live_nodes(f):
@@ -195,40 +215,29 @@ def r3(run, ctx):
                 adds.append(n)
     run.need('R3', adds, 'changed watchers are scheduled for delete+add', f,
              'a watcher whose options changed is never replaced')
+    diffs = [n for n in ctx.live_nodes(f) if n.kind == 'stmt' and isinstance(n.ast, ast.Assign) and
+             norm_text(n.ast.targets[0]) == 'diff']
+    run.count('R3', len(diffs), 1, 'per-watcher diff')
     for n in adds:
-        run.check('R3', guarded(cfg, n, changed_true, True), 'a watcher is scheduled for '
-                  'replacement only under `changed`', f, n.ast,
+        run.check('R3', guarded(cfg, n, diff_nonempty, True) and guarded(cfg, n, np_only, False),
+                  'a watcher is scheduled for replacement only when its options differ in more '
+                  'than numprocesses', f, n.ast,
                   'a watcher is stopped and recreated although nothing but (at most) '
                   'numprocesses changed')
-    # `changed` is False in the numprocesses-only branch, len(diff) > 0 otherwise
-    ch = src.get('changed', [])
-    run.count('R3', len(ch), 1, 'assignments of `changed`')
-    for a in ch:
-        node = [n for n in cfg.nodes if n.ast is a]
-        if not node:
-            continue
-        node = node[0]
-        if astq.const_value(a.value, None) is False:
-            run.check('R3', cfg.dominates(sn, node) or any(cfg.reachable(s, node) for s in sn),
-                      '`changed = False` belongs to the numprocesses-only branch', f, a)
-        else:
-            run.check('R3', norm_text(a.value) in ('len(diff) > 0', 'bool(diff)', 'diff != set()'),
-                      'otherwise changed <=> the diff is non-empty', f, a,
-                      '`changed` is %s: an unchanged watcher can be replaced (or a changed one '
-                      'kept)' % norm_text(a.value))
-
-    def np_only(e):
-        if isinstance(e, ast.Compare) and isinstance(e.left, ast.Name) and e.left.id == 'diff' \
-                and isinstance(e.ops[0], ast.Eq) and 'numprocesses' in norm_text(e.comparators[0]):
-            return True
-        return None
+    # ... and whenever they do: with a non-empty diff that is not numprocesses alone, the
+    # next iteration / the end of the loop is not reached without scheduling it
+    for d in diffs:
+        asm = combine(lambda e: diff_nonempty(e), lambda e: (
+            None if np_only(e) is None else (not np_only(e))))
+        hdr = [h for h in cfg.nodes if h.kind == 'iter' and d.id in cfg.branch_nodes(h, 'true')]
+        if hdr and adds:
+            r = reach_under(cfg, d, asm, avoid=adds, labels_excluded=('exc',))
+            run.check('R3', hdr[-1].id not in r and cfg.exit.id not in r,
+                      'a watcher whose options differ is always scheduled for replacement', f,
+                      d.ast, 'a changed watcher can be skipped')
     for s in sn:
         run.check('R3', guarded(cfg, s, np_only, True), 'set_numprocesses is used exactly when '
                   'numprocesses is the only difference', f, s.ast)
-        r = reach_under(cfg, cfg.entry, np_only)
-        run.check('R3', not any(n.id in r for n in adds) or
-                  all(guarded(cfg, n, changed_true, True) for n in adds),
-                  'a numprocesses-only change does not replace the watcher', f, s.ast)
     # watcher-affecting calls and their loops
     stops = ctx.sites_calling(f, [W + '_stop'])
     starts = ctx.sites_calling(f, [A + 'start_watcher'])
